@@ -480,7 +480,7 @@ func c12GenManyKeysCase(r *vfRand) *c01In {
 	if r.Chance(1, 3) { // a few cached 404 / 405 keys in between
 		in.Reqs = append(in.Reqs, c01Req{Host: "a.com", Method: "GET", Path: "/none", Headers: [][2]string{}, Remote: "10.0.1.1:4321"})
 	}
-	for b := r.Range(2, 4); b > 0; b-- {
+	for b := r.Range(2, 3); b > 0; b-- {
 		a := r.Intn(nk)
 		in.Seq = append(in.Seq, a, a)
 		if r.Bool() {
